@@ -24,7 +24,7 @@ def _seed_task(seed):
 
 
 def explicit_spec(spec, out):
-    s = {k: v for k, v in spec.items() if k not in ("p", "loc_cap", "max_switches")}
+    s = {k: v for k, v in spec.items() if k not in ("p", "loc_cap", "max_switches", "p_hot", "strategy")}
     s["schedule"] = out["schedule"]
     return s
 
@@ -53,6 +53,8 @@ def minimize(spec, sig, max_trials=160):
 
     # 1. simpler tracing mode
     for change in ({"opcode": False}, {"mode": "shared"}):
+        if best.get("mode") == "hotonly":
+            break
         if any(best.get(k) != v for k, v in change.items()):
             cand = dict(best, **change)
             if attempt(cand):
@@ -126,15 +128,16 @@ def check(args):
     budget = args.budget or tier["budget"]
     core.reexec_pinned()
     core.bootstrap()
-    _R = core.compute_reference()
+    _R = core.compute_reference(coverage=True)
     c19.build_loc_funcs()
+    c19.warm_tables()
     t_setup = time.time() - t0
     seeds = seeds_for(args.seed, nruns)
     deadline = time.monotonic() + budget
     report = Report(PROP)
     agg = {
         "runs": 0, "steps": 0, "switches": 0, "ops": 0, "imports": 0,
-        "threads": Counter(), "probes": Counter(), "inter": set(), "pairs": set(),
+        "threads": Counter(), "probes": Counter(), "inter": set(), "pairs": set(), "modes": Counter(), "hot_hits": 0,
         "find_types_checked": 0, "viol_runs": 0, "sigs": Counter(),
     }
     first_by_sig = {}
@@ -151,6 +154,8 @@ def check(args):
         agg["ops"] += out["nops"]
         agg["imports"] += out["imports"]
         agg["threads"][out["nthreads"]] += 1
+        agg["modes"][out["mode"]] += 1
+        agg["hot_hits"] += out["hot_hits"]
         agg["probes"].update(out["probes"])
         agg["find_types_checked"] += out["probe"]["find_types_checked"]
         if any(v for k, v in out["probes"].items()):
@@ -215,6 +220,9 @@ def check(args):
                 "calls_executed": agg["ops"],
                 "import_events": agg["imports"],
                 "threads_histogram": {str(k): v for k, v in sorted(agg["threads"].items())},
+                "tracing_modes": dict(agg["modes"]),
+                "conflict_directed_preemptions": agg["hot_hits"],
+                "traced_code_objects": {m: len(c19.codes_for(m)) for m in ("shared", "writers", "all")},
                 "probes": dict(agg["probes"]),
                 "conflict_pairs": len(agg["pairs"]),
                 "index_observations_checked": agg["find_types_checked"],
@@ -250,6 +258,7 @@ def replay(args):
     names = {nm for prog in spec["threads"] for nm in prog if not nm.startswith("import:")} | set(spec.get("warmup", []))
     _R = core.compute_reference(names)
     c19.build_loc_funcs()
+    c19.warm_tables()
     out, err = run_solo(spec)
     if err:
         print(f"HARNESS-ERROR: {err}")
@@ -271,8 +280,9 @@ def digests(seed, runs):
     """seed -> run digest, for the determinism self-test."""
     global _R
     core.bootstrap()
-    _R = core.compute_reference()
+    _R = core.compute_reference(coverage=True)
     c19.build_loc_funcs()
+    c19.warm_tables()
     seeds = seeds_for(seed, runs)
     res = core.run_batch(_seed_task, seeds, timeout=60.0)
     return {str(seeds[i]): (out["digest"] if st == "ok" else f"{st}") for i, st, out in res}
